@@ -245,8 +245,8 @@ func c10BurstRun(c *core.Ctx, spec c10BurstSpec) {
 		if i := strings.LastIndex(tr, "c10-burst class="); i >= 0 {
 			class = strings.Fields(tr[i+len("c10-burst class="):])[0]
 		}
-		c.Violate(fmt.Sprintf("C10/%s/panic/%s/back-to-back/%s", kd, c10PanicSite(tr), class),
-			fmt.Sprintf("the SERVER PROCESS DIED: the open request of user alice (fresh session id) was IMMEDIATELY followed in the socket's receive queue by a %q datagram of another registered user carrying the same id (GOMAXPROCS=%d). Trace:\n%s", class, spec.Procs, tr), spec)
+		c.Violate(fmt.Sprintf("C10/%s/panic/%s/back-to-back", kd, c10PanicSite(tr)),
+			fmt.Sprintf("the SERVER PROCESS DIED: the open request of user alice (fresh session id) was IMMEDIATELY followed in the socket's receive queue by a datagram of another registered user carrying the same id (rounds are queued in chunks of 25; last class queued: %q; the panic message names the segment; GOMAXPROCS=%d). Trace:\n%s", class, spec.Procs, tr), spec)
 		return
 	}
 	if rep.Error != "" {
